@@ -67,7 +67,7 @@ func checkCli(c CliCase) error {
 			for _, n := range c.Names {
 				hsh = hsh*31 + len(n) + int(n[len(n)-1])
 			}
-			layout := []string{"lines", "lines", "commas", "long", "exact", "long"}[hsh%6]
+			layout := []string{"lines", "blank", "commas", "long", "exact", "long"}[hsh%6]
 			og := cli.TipFile(c.Names, layout, 4096*(1+hsh/6%2), hsh/12)
 			files["og.txt"] = og
 			ogNames = nil
